@@ -20,7 +20,8 @@ def main(tier, replay=None):
     run = Run("C07", tier, "model_checking")
     exe = build("h_l2")
     if replay:
-        res = mulib.run_harness_env(exe, ["replay", replay, REPLAYS], dict(os.environ, VERIF_PROP="C07"))
+        rexe, renv = replay_target(replay, "h_l2")
+        res = mulib.run_harness_env(rexe, ["replay", replay, REPLAYS], dict(os.environ, VERIF_PROP="C07", **renv))
         for v in res["viols"]:
             run.violation("%s|%s|replay" % (v[0], v[1]), replay, v[5])
         return run.finish()
